@@ -64,22 +64,32 @@ func c07Quote(q int, s string) (string, int) {
 		return "'" + strings.ReplaceAll(s, "'", "''") + "'", 1
 	case 2:
 		return "\"" + s + "\"", 1
+	case 3: // the scalar carries an anchor
+		return "&anc " + s, 5
+	case 4: // ... an explicit tag
+		return "!!str " + s, 6
+	case 5: // ... both, and quotes
+		return "&anc !!str \"" + s + "\"", 12
 	}
 	return s, 0
 }
 
-var c07QuoteNames = []string{"plain", "single", "double"}
+var c07QuoteNames = []string{"plain", "single", "double", "anchor+plain", "tag+plain", "anchor+tag+double"}
+
+// c07Plain: the text is written as a plain scalar (after an anchor / tag or not).
+func c07Plain(quote int) bool { return quote == 0 || quote == 3 || quote == 4 }
 
 // c07StepCase renders a workflow whose only step carries the scalar.
 func c07StepCase(con *c07Construct, extra, above, flow, quote, prefix, preceding, spaces int) *c07Case {
 	var content string
 	tokOff := 0
 	if con.bare {
-		if prefix > 0 || preceding > 0 || spaces > 0 {
+		if prefix > 0 || preceding > 0 || (spaces > 0 && c07Plain(quote)) {
 			return nil
 		}
-		content = con.expr
-		tokOff = con.off
+		// quoted conditions: `spaces` blanks between the opening quote and the first token
+		content = strings.Repeat(" ", spaces) + con.expr
+		tokOff = spaces + con.off
 	} else {
 		content = strings.Repeat("p", prefix)
 		if prefix > 0 {
@@ -96,13 +106,13 @@ func c07StepCase(con *c07Construct, extra, above, flow, quote, prefix, preceding
 		// single quotes inside single-quoted scalars are escapes: outside the claimed class
 		return nil
 	}
-	if quote == 0 && (flow == 1 || strings.HasPrefix(content, "${{") && false) {
+	if c07Plain(quote) && (flow == 1 || strings.HasPrefix(content, "${{") && false) {
 		return nil // plain scalars cannot hold { } in flow context
 	}
-	if quote == 0 && strings.Contains(content, ": ") {
+	if c07Plain(quote) && strings.Contains(content, ": ") {
 		return nil
 	}
-	if quote == 0 && (strings.HasPrefix(content, "'") || strings.HasPrefix(content, "!") || strings.HasPrefix(content, "1 ==") && false) {
+	if c07Plain(quote) && (strings.HasPrefix(content, "'") || strings.HasPrefix(content, "!") || strings.HasPrefix(content, "1 ==") && false) {
 		return nil
 	}
 	scalar, qoff := c07Quote(quote, content)
@@ -194,7 +204,7 @@ func TestVerifC07(t *testing.T) {
 		for extra := 0; extra <= 4; extra++ {
 			for above := 0; above <= 3; above++ {
 				for flow := 0; flow <= 1; flow++ {
-					for quote := 0; quote <= 2; quote++ {
+					for quote := 0; quote <= 5; quote++ {
 						for prefix := 0; prefix <= 5; prefix++ {
 							for preceding := 0; preceding <= 2; preceding++ {
 								for spaces := 0; spaces <= 3; spaces++ {
@@ -241,15 +251,18 @@ func TestVerifC07(t *testing.T) {
 				kc{"duplicate-key/flow", top + "on: push\njobs:\n  a:\n    runs-on: ubuntu-latest\n    steps:\n" + ind + "- {run: echo, name: a, name: b}\n", `^key "name" is duplicate`, above + 6, len(ind) + len("- {run: echo, name: a, ") + 1},
 				kc{"unexpected-key/job", top + "on: push\njobs:\n" + jind + "a:\n" + jind + "  runs-on: ubuntu-latest\n" + jind + "  zzforeign: 1\n" + jind + "  steps:\n" + jind + "    - run: echo\n", `^unexpected key "zzforeign"`, above + 5, len(jind) + 3},
 			)
-			for quote := 0; quote <= 2; quote++ {
+			for quote := 0; quote <= 5; quote++ {
 				q := func(s string) (string, int) { return c07Quote(quote, s) }
+				// a diagnostic about a whole value points at its text (the opening quote of a quoted
+				// one), which stands after an anchor / tag
+				ao := []int{0, 0, 0, 5, 6, 11}[quote]
 				v, qo := q("nosuchshell")
-				cases = append(cases, kc{"shell-name/" + c07QuoteNames[quote], top + "on: push\njobs:\n  a:\n    runs-on: ubuntu-latest\n    steps:\n" + ind + "- run: echo\n" + ind + "  shell: " + v + "\n", `^shell name "nosuchshell" is invalid`, above + 7, len(ind) + 10})
+				cases = append(cases, kc{"shell-name/" + c07QuoteNames[quote], top + "on: push\njobs:\n  a:\n    runs-on: ubuntu-latest\n    steps:\n" + ind + "- run: echo\n" + ind + "  shell: " + v + "\n", `^shell name "nosuchshell" is invalid`, above + 7, len(ind) + 10 + ao})
 				_ = qo
 				v, _ = q("bogus")
-				cases = append(cases, kc{"permission-value/" + c07QuoteNames[quote], top + "on: push\npermissions:\n" + jind + "contents: " + v + "\njobs:\n  a:\n    runs-on: ubuntu-latest\n    steps:\n      - run: echo\n", `^"bogus" is invalid for permission`, above + 3, len(jind) + 11})
+				cases = append(cases, kc{"permission-value/" + c07QuoteNames[quote], top + "on: push\npermissions:\n" + jind + "contents: " + v + "\njobs:\n  a:\n    runs-on: ubuntu-latest\n    steps:\n      - run: echo\n", `^"bogus" is invalid for permission`, above + 3, len(jind) + 11 + ao})
 				v, _ = q("nosuchtype")
-				cases = append(cases, kc{"dispatch-input-type/" + c07QuoteNames[quote], top + "on:\n  workflow_dispatch:\n    inputs:\n      x:\n" + ind + "  type: " + v + "\njobs:\n  a:\n    runs-on: ubuntu-latest\n    steps:\n      - run: echo\n", `^input type of workflow_dispatch event must be one of`, above + 5, len(ind) + 9})
+				cases = append(cases, kc{"dispatch-input-type/" + c07QuoteNames[quote], top + "on:\n  workflow_dispatch:\n    inputs:\n      x:\n" + ind + "  type: " + v + "\njobs:\n  a:\n    runs-on: ubuntu-latest\n    steps:\n      - run: echo\n", `^input type of workflow_dispatch event must be one of`, above + 5, len(ind) + 9 + ao})
 				// glob: bad character (space) at index k of a ref pattern
 				// several bad characters in one pattern: each one is reported at its own column
 				{
@@ -266,7 +279,7 @@ func TestVerifC07(t *testing.T) {
 					}
 				}
 				// negated pattern: the ! is part of the scalar, columns count it
-				if quote != 0 {
+				if !c07Plain(quote) {
 					for k := 1; k <= 3; k++ {
 						pat := "!" + strings.Repeat("a", k) + " b"
 						v, qo := q(pat)
